@@ -103,6 +103,7 @@ def main():
         problems.append(dict(d, kind="correspondence:" + d.get("kind", "")))
 
     # ---- 3. the property's relation on the real code ------------------------------------
+    oracles.register_history(prop, R.get("history_components", R.get("components", [])))
     n_or = R.get("oracle_cases", {}).get(args.tier, 6 if args.tier == "quick" else 40)
     if problems:
         n_or = max(n_or * 4, 40)     # search harder when something no longer checks
@@ -110,11 +111,21 @@ def main():
     for name, f in oracles.ORACLES.get(prop, []):
         for k in range(n_or):
             keys = ["oracle", prop, name, k]
+            oracles.CURRENT_K = k
             try:
                 fl = f(core.rng_for(*keys), args.tier)
             except oracles.Discard:
                 st.discarded += 1
                 continue
+            except core.DriverError:
+                raise
+            except Exception as ex:
+                # the real code raised on a configuration inside the property's quantifier
+                import traceback as _tb
+                tb = _tb.extract_tb(ex.__traceback__)
+                where = next((("%s:%d" % (fr.filename, fr.lineno)) for fr in reversed(tb) if "/openaerostruct/" in fr.filename), "")
+                fl = [dict(what="the analysis raised %s on an admissible configuration" % type(ex).__name__,
+                           observed=str(ex)[:300], required="a result", case=dict(where=where))]
             rel_checked += 1
             for x in fl:
                 x["oracle"] = name
@@ -197,8 +208,12 @@ def replay(prop, path, core, oracles, findings):
     if obj.get("kind") == "failing-input":
         f0 = obj["failure"]
         keys = f0["seed_keys"]
+        from . import registry
+        R = registry.PROPS[prop]
+        oracles.register_history(prop, R.get("history_components", R.get("components", [])))
         for name, f in oracles.ORACLES.get(prop, []):
             if name == f0["oracle"]:
+                oracles.CURRENT_K = int(keys[-1])
                 fl = f(core.rng_for(*keys), obj.get("tier", "quick"))
                 if fl:
                     print("replay reproduces:", fl[0]["what"], "observed", fl[0]["observed"], "required", fl[0]["required"])
